@@ -431,6 +431,30 @@ fn main() {
             }
             o.finish();
         }
+        "call" => {
+            // re-run single calls ({api, items, width, delim} per line) and print what happens
+            let calls: Vec<Call> = read_ndjson(Path::new(args.req("--cases")))
+                .iter()
+                .map(|c| Call {
+                    api: if c["api"] == "Str" { Api::Str } else { Api::Line },
+                    items: c["items"].as_array().unwrap().iter().map(|s| s.as_str().unwrap().to_owned()).collect(),
+                    width: c["width"].as_u64().unwrap() as usize,
+                    delim: c["delim"].as_str().unwrap().to_owned(),
+                })
+                .collect();
+            let calls = Arc::new(calls);
+            for (c, outc) in calls.iter().zip(run_all(calls.clone())) {
+                let (res, items, w) = match &outc {
+                    Outcome::Ok(items) => ("ok".to_owned(), json!(items), json!(items.iter().map(|s| Cell::width(s.as_str())).sum::<usize>())),
+                    Outcome::Panic(p) => (format!("panic: {p}"), json!(null), json!(null)),
+                    Outcome::Hang => ("hang".to_owned(), json!(null), json!(null)),
+                    Outcome::Skipped => ("skipped".to_owned(), json!(null), json!(null)),
+                };
+                o.emit(&json!({"api": format!("{:?}", c.api), "items": c.items, "width": c.width, "delim": c.delim,
+                    "result": res, "out": items, "out_width": w}));
+            }
+            o.finish();
+        }
         _ => fatal("unknown mode"),
     }
     // abandoned (spinning) workers must not keep the process alive
